@@ -23,8 +23,8 @@ type Ex struct {
 	L     *Ex    `json:"l,omitempty"`
 	R     *Ex    `json:"r,omitempty"`
 	T     string `json:"t"`
-	Lit   string `json:"lit,omitempty"`  // literal source text (int digits, d.d, quoted string, true/false)
-	Name  string `json:"name,omitempty"` // variable name
+	Lit   string `json:"lit,omitempty"`   // literal source text (int digits, d.d, quoted string, true/false)
+	Name  string `json:"name,omitempty"`  // variable name
 	Paren bool   `json:"paren,omitempty"` // redundant parentheses around this node
 }
 
